@@ -316,7 +316,7 @@ func (ls *LState) GetTypeMetatable(typ string) LValue {
 
 func (ls *LState) CallMeta(obj LValue, event string) LValue {
 	op := ls.metaOp1(obj, event)
-	if op.Type() == LTFunction {
+	if op != LNil { // luaL_callmeta: any non-nil handler is called (a callable table through __call)
 		ls.reg.Push(op)
 		ls.reg.Push(obj)
 		ls.Call(1, 1)
@@ -400,7 +400,7 @@ func (ls *LState) DoString(source string) error {
 // ToStringMeta returns string representation of given LValue.
 // This method calls the `__tostring` meta method if defined.
 func (ls *LState) ToStringMeta(lv LValue) LValue {
-	if fn, ok := ls.metaOp1(lv, "__tostring").(*LFunction); ok {
+	if fn := ls.metaOp1(lv, "__tostring"); fn != LNil {
 		ls.Push(fn)
 		ls.Push(lv)
 		ls.Call(1, 1)
